@@ -206,6 +206,7 @@ def gen_case(rng: Any, exc: list[str] | None, site: str, exc_log: bool = False) 
         steps.append({"logs": gen_logs(rng, 1), "emit": None, "finish": False, "raise": None})
         info["exc"] = ["RuntimeError", "No data batch was emitted"]
         info["validate"] = True
+        info["reached"] = True
     elif site == "none":
         if kind == "producer":
             if rng.random() < 0.6:
@@ -254,14 +255,15 @@ def translate(ctx: Any) -> None:
 def run(ctx: Any) -> None:
     translate(ctx)
     ctx.prove(
-        ["prop/P_C07.vo", "refuted/R_C07.vo", "tie/T_WireErr.vo"],
+        ["prop/P_C07.vo", "refuted/R_C07.vo"],
         {
             "P_C07": ["C07_type_and_text", "C07_kind_carried_exposed", "C07_event_is_client_error", "C07_reaches_client_socket",
                       "C07_reaches_client_http", "C07_http_failure_is_the_implementations", "C07_marker_iff_failed", "C07_turns_are_the_wire_frames"],
-            "T_WireErr": ["wireerr_keys_tie", "wireerr_status_tie", "C07_source_marker", "wireerr_flow_tie", "wireerr_http_sites_tie"],
             "R_C07": ["C07_unrepaired_client_drops_kind_refuted"],
         },
     )
+    # the tie is built separately: a source that no longer matches the tables breaks the tie obligations only
+    ctx.prove(["tie/T_WireErr.vo"], {"T_WireErr": ["wireerr_keys_tie", "wireerr_status_tie", "C07_source_marker", "wireerr_flow_tie", "wireerr_http_sites_tie"]})
 
     from harness import c07_driver as D
     from harness import interp as I
@@ -373,12 +375,8 @@ def run(ctx: Any) -> None:
         cases.append({"pid": pid, "kind": kind, "prog": prog, "script": sc, "info": info, "exc_log": exc_log})
 
     caps: list[int | None] = [None, 1, BIG]
-    m_ptrace: list[tuple[str, str]] = []
-    m_ptriple: list[tuple[str, str]] = []
-    m_htrace: list[tuple[str, str]] = []
-    m_htriple: list[tuple[str, str]] = []
-    m_hresps: list[tuple[str, str]] = []
-    m_legal: list[tuple[str, str]] = []
+    m_pipe: list[tuple[str, str]] = []
+    m_http: list[tuple[str, str]] = []
     keys_p: list[dict[str, Any]] = []
     keys_h: list[dict[str, Any]] = []
     t1 = time.time()
@@ -421,7 +419,7 @@ def run(ctx: Any) -> None:
                 ctx.violation("client-invents-an-error-kind", f"{transport}: untyped exception exposed with a kind", {**repl, "transport": transport, "client_exposes": repr(err[3])})
 
         ps = f"({c_prog(kind, prog)}, {c_script(sc, 'record')})"
-        m_legal.append((ps, "true"))
+        cmp_triple = "false" if c["exc_log"] else "true"
         # ---- socket family
         pipe_tr = None
         for tk in ("pipe", "unix"):
@@ -435,10 +433,9 @@ def run(ctx: Any) -> None:
             elif (tr, err[:5] if err else None) != (pipe_tr[0], pipe_tr[1][:5] if pipe_tr[1] else None):
                 ctx.violation("socket-transports-differ", "pipe and unix observe differently", {**repl, "pipe": pipe_tr[0][-3:], "unix": tr[-3:]})
         tr, err = pipe_tr  # type: ignore[misc]
-        m_ptrace.append((ps, c_trace(tr)))
-        keys_p.append({**repl, "transport": "pipe", "impl_trace_tail": tr[-3:]})
-        if not c["exc_log"]:
-            m_ptriple.append((ps, c_triple(None if err is None else (err[1], norm_msg(err[2]), kind_of_exposed(err[3])))))
+        tri = "None" if c["exc_log"] else c_triple(None if err is None else (err[1], norm_msg(err[2]), kind_of_exposed(err[3])))
+        m_pipe.append((f"({cmp_triple}, {ps})", f"({c_trace7(tr)}, {tri}, true)"))
+        keys_p.append({**repl, "transport": "pipe", "impl_trace_tail": [e[:3] if e[0] != "error" else [e[0], e[1], e[2][:200]] for e in tr[-3:]], "impl_error_kind": None if err is None else repr(err[3])})
         # ---- HTTP
         for cap in caps:
             tr, resps = D.run_http(cap, sc)
@@ -466,37 +463,35 @@ def run(ctx: Any) -> None:
                         ctx.violation("error-kind-not-carried-on-the-wire", "vgi_rpc.error_kind missing / different on the HTTP error batch", {**rr, "kind": facts[2]})
             if reached and not cap_hit and not c["exc_log"] and not any(o[1] for o in obs):
                 ctx.violation("http-error-response-without-marker", "the implementation raised but no response of the call carries the marker", {**repl, "cap": cap, "responses": obs})
-            hs = f"({c_cap(cap)}, {ps})"
-            m_htrace.append((hs, c_trace(tr)))
-            m_hresps.append((hs, "[" + "; ".join(f"({s_}%N, {'true' if m_ else 'false'}, {'true' if e_ else 'false'})" for s_, m_, e_ in obs) + "]"))
-            keys_h.append({**repl, "cap": cap, "impl_trace_tail": tr[-3:], "impl_responses": obs})
-            if not c["exc_log"]:
-                m_htriple.append((hs, c_triple(None if err is None else (err[1], norm_msg(err[2]), kind_of_exposed(err[3])))))
+            hs = f"({cmp_triple}, ({c_cap(cap)}, {ps}))"
+            tri = "None" if c["exc_log"] else c_triple(None if err is None else (err[1], norm_msg(err[2]), kind_of_exposed(err[3])))
+            robs = "[" + "; ".join(f"({s_}%N, {'true' if m_ else 'false'}, {'true' if e_ else 'false'})" for s_, m_, e_ in obs) + "]"
+            m_http.append((hs, f"({c_trace7(tr)}, {tri}, {robs})"))
+            keys_h.append({**repl, "cap": cap, "impl_trace_tail": [e[:3] if e[0] != "error" else [e[0], e[1], e[2][:200]] for e in tr[-3:]], "impl_responses": obs,
+                           "impl_error_kind": None if err is None else repr(err[3])})
     ctx.log(f"layer S/H: {len(cases)} cases, {ctx.counters.get('impl_runs', 0)} implementation runs in {time.time() - t1:.1f}s")
     for smp in cases[:3]:
         ctx.sample({"program": smp["prog"], "script": smp["script"], "site": smp["info"]["site"]})
 
-    ty = "prog * script"
-    tyh = f"option N * ({ty})"
+    ty = "bool * (prog * script)"
+    tyh = "bool * (option N * (prog * script))"
     tt = "option (str * str * option str)"
     runs = [
-        ("run_case_pipe.trace", "p_trace", "trace_eqb", m_ptrace, ty, "list event", keys_p, True),
-        ("run_case_pipe.error-triple", "p_triple", "triple_eqb", m_ptriple, ty, tt, None, True),
-        ("run_case_http.trace", "h_trace", "trace_eqb", m_htrace, tyh, "list event", keys_h, True),
-        ("run_case_http.error-triple", "h_triple", "triple_eqb", m_htriple, tyh, tt, None, True),
-        ("run_case_http.responses", "h_resps", "hobs_eqb", m_hresps, tyh, "list (N * bool * bool)", keys_h, True),
+        ("run_case_pipe", "p_all", "p_eqb", m_pipe, ty, f"list event * {tt} * bool", keys_p,
+         [("trace", "p_trace"), ("error-triple", "p_triple")]),
+        ("run_case_http", "h_all", "h_eqb", m_http, tyh, f"list event * {tt} * list (N * bool * bool)", keys_h,
+         [("trace", "h_trace"), ("error-triple", "h_triple"), ("responses", "h_resps")]),
     ]
-    for name, fn, eqb, lst, ity, oty, keys, _ in runs:
-        ok, bad, lg = ctx.coq_mismatches(HEADER, fn, eqb, lst, ity, oty, shard=40)
-        ctx.obligation(f"correspondence:M_WireErr.{name}", "correspondence", ok and not bad, lg if not ok else f"{len(bad)} of {len(lst)} cases disagree")
+    for name, fn, eqb, lst, ity, oty, keys, parts in runs:
+        ok, bad, lg = ctx.coq_mismatches(HEADER, fn, eqb, lst, ity, oty, shard=24)
+        ctx.obligation(f"correspondence:M_WireErr.{name}", "correspondence", ok and not bad, lg if not ok else f"{len(bad)} of {len(lst)} cases disagree (trace, error triple, {'legal' if fn == 'p_all' else 'responses'})")
         ctx.count("model_cases", len(lst))
-        for i in bad[:2]:
-            shown = ctx.coq_show(HEADER, f"{fn} {lst[i][0]}")
-            is_kind = "error-triple" in name and "None))" not in lst[i][1] and KEY_EXPOSE in [v["key"] for v in ctx.violations]
-            ctx.violation("model-impl-disagree:" + name + (":exposed-kind" if is_kind else ""), "implementation and model observe differently",
-                          {"input": lst[i][0][:2500], "impl": lst[i][1][:2500], "model": shown[-1500:], **({"case": keys[i]} if keys else {})})
-    ok, bad, lg = ctx.coq_mismatches(HEADER, "legal_c07", "Bool.eqb", m_legal, ty, "bool", shard=200)
-    ctx.obligation("generator:cases-meet-the-theorem-premises", "correspondence", ok and not bad, lg if not ok else f"{len(bad)} generated cases are not legal/recording/complete")
+        for i in bad[:3]:
+            shown = " | ".join(f"{pn}: " + ctx.coq_show(HEADER, f"{pf} {lst[i][0]}")[-700:] for pn, pf in parts)
+            k = keys[i]
+            exposed_gap = k.get("impl_error_kind") == repr(ABSENT) and "Some" in shown.split("error-triple:")[1].split("responses:")[0][-120:]
+            ctx.violation("model-impl-disagree:" + name + (":exposed-kind" if exposed_gap else ""), "implementation and model observe differently",
+                          {"case": k, "impl": lst[i][1][-1500:], "model": shown})
     ctx.assumptions += [
         "json.loads(json.dumps(extra)) == extra for the extras Message.from_exception writes (Section hypothesis loads_dumps; checked on every real case)",
         "Arrow custom-metadata transport and UTF-8 encode/decode are the identity on well-formed Unicode text (model: code-point strings); lone surrogates are outside",
